@@ -186,7 +186,8 @@ func (t *HtmlScanner) readText() (tok *Token, err error) {
 							Start: end,
 							End:   t.pos,
 							Tag: &Tag{
-								Name: "/" + tagName,
+								// 保留源码中的大小写 (nameBuf = "</Name>" 去除了空白)
+								Name: nameBuf.String()[1 : nameBuf.Len()-1],
 								// 结束标签无属性
 							},
 						}
